@@ -36,7 +36,14 @@ func tableGetN(L *LState) int {
 }
 
 func tableMaxN(L *LState) int {
-	L.Push(LNumber(L.CheckTable(1).MaxN()))
+	// the largest positive numerical index of the whole table, not only of the array part
+	var max LNumber
+	L.CheckTable(1).ForEach(func(k, v LValue) {
+		if n, ok := k.(LNumber); ok && n > max {
+			max = n
+		}
+	})
+	L.Push(max)
 	return 1
 }
 
